@@ -29,7 +29,9 @@ def run(ck):
     for i in range(nconf):
         kn, p, q = grid[i % len(grid)]
         nnum = int(rng.integers(0, 5)); ng = int(rng.integers(1, 5))
-        levels = [int(rng.integers(2, 7)) for _ in range(ng)]
+        if kn == 'l2' and i % 3 != 2:       # small layouts, so that an entry can be certified by `interval`
+            nnum = min(nnum, 2); ng = min(ng, 2)
+        levels = [int(rng.integers(2, 7 if not (kn == 'l2' and i % 3 != 2) else 4)) for _ in range(ng)]
         if nnum == 0 and i % 2:
             nnum = 1
         d = nnum + sum(levels)
